@@ -351,7 +351,7 @@ func gcsOp(mode string, src []byte) *wire.Rec {
 var gcsFragments = []string{
 	"let", "x", "y1", "foo-bar", "a%", "=", "==", ";", " ", "\n", "\t", "(", ")", "[", "]", "{", "}", ",", ":", "+", "-", "*", "/", "<", ">", "<=", ">=", "<>", "!=", "!", "&&", "||",
 	"1", "23", "4.5", ".5", "-7", "-.2", "3.", "\"str\"", "\"a\\\"b\"", "if", "else", "while", "for", "fn", "switch", "case", "default", "break", "continue", "fallthrough", "return",
-	"true", "false", "null", "# comment\n", "// c\n", "//", "#", "&", "|", ".", "\"open", "\\", "$", "@", "é", "日本", "٣", "-٣", ".٣", "x٣", "\xff", "\xc3", "\xe2\x82", "\r\n", "_", "%",
+	"true", "false", "null", "a_rather_long_identifier", "12345678901234", "\"a long string literal\"", "# comment\n", "// c\n", "//", "#", "&", "|", ".", "\"open", "\\", "$", "@", "é", "日本", "٣", "-٣", ".٣", "x٣", "\xff", "\xc3", "\xe2\x82", "\r\n", "_", "%",
 }
 
 var gcsPrograms = []string{
@@ -398,6 +398,16 @@ func genExpr(r *rand.Rand, d int) string {
 		return pick(r, "!", "- ") + pick(r, "f", "g") + "(" + genExpr(r, d-1) + ")"
 	}
 	return genExpr(r, d-1)
+}
+
+func indexesOf(b []byte, chars string) []int {
+	var out []int
+	for i, c := range b {
+		if strings.IndexByte(chars, c) >= 0 {
+			out = append(out, i)
+		}
+	}
+	return out
 }
 
 func genStmtSrc(r *rand.Rand) string {
@@ -466,6 +476,8 @@ func (g gcsComp) Gen(r *rand.Rand, tier string, n int) []*wire.Case {
 	add("d-invalid-utf8", "\xff", "a\xffb", "\xc3", "\xe2\x82", "let \xff = 1;", "\"\xff\"")
 	add("d-idents", "foo", "foo-bar", "foo%", "_x", "été", "日本語", "x$", "x@y", "let", "letx", "true1", "null;", "a.b", "a|b", "a&b")
 	add("d-unary-call", "!f(x);", "let y = - g(1, 2);", "a && !done(t);", "!f(x)(y);", "-f(x) * 2;", "!(f)(x);", "! !f(x);", "- -x(1);", "f(x)(y)(z);", "(a + b)(c);", "fn(a){ return a; }(1);", "[1](2);")
+	add("d-bad-token-in-map", "[a abcdefghijk];", "let m = [1 \"hello, world\"];", "print([0.5 12345678901]);", "[x fallthrough];", "[a abcdefghij];", "[1 2];",
+		"let m = [k = 1 second_element_without_comma];", "f([1, 2 \"a long string literal\"]);", "[very_long_identifier_name = ];", "[1, 2, 3 continue];")
 	add("d-ops", "= == > >= < <= <> != ! && || & |", "a&&b||c", "a<>b", "!a", "!=")
 	add("d-missing-parts", "let x = (1 + 2;", "let x = ; ;", "let x = ;", "let = 1;", "let x 1;", "x = ;", "if x { y = 1; ", "if { }", "while { }", "fn (a) { }", "fn f(a { }", "fn f(a,) { }",
 		"switch x { case : y; }", "switch x { y; }", "for let i = 0 i < 3 { }", "f(1,;", "f(1 2);", "[1, 2", "[a = ]", "return ;", "let x = 1 + ;", "let x = * 2;", "x = (;", "let x = ();")
@@ -486,6 +498,14 @@ func (g gcsComp) Gen(r *rand.Rand, tier string, n int) []*wire.Case {
 				for k := 0; k < 1+r.Intn(3); k++ {
 					src = append(src, genStmtSrc(r)...)
 					src = append(src, ' ')
+				}
+				if r.Intn(3) == 0 {
+					// ... with one separator replaced by a space or a long token: error paths that print tokens
+					if idx := indexesOf(src, ",()[];="); len(idx) > 0 {
+						at := idx[r.Intn(len(idx))]
+						rep := pick(r, " ", " a_rather_long_identifier ", " 12345678901234 ", " \"a long string literal\" ", " fallthrough ")
+						src = append(append(append([]byte{}, src[:at]...), rep...), src[at+1:]...)
+					}
 				}
 			case 0: // fragment soup
 				for k := 0; k < 1+r.Intn(25); k++ {
